@@ -1013,6 +1013,14 @@ func conclude(prop, tier string, cfg *propConfig, runs []*variantRun, wall float
 		fmt.Printf("HARNESS-ERROR: %s observed nothing\n", prop)
 		return 2
 	}
+	if len(samples) == 0 && only == "" {
+		fmt.Printf("HARNESS-ERROR: %s offered no literal sample of the cases it ran (evidence would be invalid)\n", prop)
+		return 2
+	}
+	if distinct < 2 && only == "" {
+		fmt.Printf("HARNESS-ERROR: %s counted fewer than 2 distinct non-trivial cases\n", prop)
+		return 2
+	}
 	return 0
 }
 
